@@ -99,3 +99,13 @@ pub broadcast proof fn axiom_empty_vec<T>()
 impl<T> VxDefault for Vec<T> { open spec fn vx_default() -> Self { vx_empty_vec::<T>() } }
 pub uninterp spec fn vx_empty_hashmap<K, V>() -> HashMap<K, V>;
 impl<K, V> VxDefault for HashMap<K, V> { open spec fn vx_default() -> Self { vx_empty_hashmap::<K, V>() } }
+
+/// HashMap<String, V> looked up with a &str key (String: Borrow<str>): the key whose text equals the str
+pub broadcast proof fn axiom_contains_str_key<V>(m: Map<String, V>, k: &str)
+    ensures #[trigger] vstd::std_specs::hash::contains_borrowed_key::<String, V, str>(m, k) <==> (exists|s: String| s@ == k@ && m.contains_key(s))
+{ admit(); }
+pub broadcast proof fn axiom_maps_str_key_to_value<V>(m: Map<String, V>, k: &str, v: V)
+    ensures #[trigger] vstd::std_specs::hash::maps_borrowed_key_to_value::<String, V, str>(m, k, v) <==> (exists|s: String| s@ == k@ && m.contains_key(s) && m[s] == v)
+{ admit(); }
+//@broadcast axiom_contains_str_key
+//@broadcast axiom_maps_str_key_to_value
